@@ -134,6 +134,11 @@ def run_pool(prop, cases, jobs, deadline, env=None, progress=True, stop_after_vi
                 results.append(r)
                 if stop_after_viol and sum(1 for x in results if x.get("viol")) >= stop_after_viol:
                     stop.set()
+                # a run drowning in aborted cases is inconclusive whatever follows
+                if len(results) >= 400 and len(results) % 50 == 0:
+                    ninc = sum(1 for x in results if x.get("inconclusive"))
+                    if ninc >= 150 and ninc > 0.3 * len(results):
+                        stop.set()
                 if progress and os.environ.get("VERIF_PROGRESS") and len(results) % 200 == 0:
                     print(f"  .. {len(results)}/{len(cases)} cases, {time.time() - t0:.0f}s", file=sys.stderr, flush=True)
         w.close()
